@@ -130,6 +130,7 @@ type Machine struct {
 	crypto      *cryptoState
 	divMemo     map[[2]*Term][2]*Term
 	fmtOpaque   int
+	timerRace   bool
 }
 
 type MachineStats struct {
